@@ -394,6 +394,11 @@ pub fn build_app_attrs(spec: &str) -> StunAttributes {
                     }
                 }
                 "fp" => a.add(Fingerprint::default()),
+                // attributes as an application would hold them after decoding a received message (not encodable
+                // as they are): the client must replace them when it owns that attribute
+                "fpd" => a.add(Fingerprint::from([0x12u8, 0x34, 0x56, 0x78])),
+                "mid" => a.add(MessageIntegrity::from([0x5au8; 20])),
+                "mi256d" => a.add(MessageIntegritySha256::from([0xa5u8; 32])),
                 _ => {}
             }
         }
@@ -430,7 +435,9 @@ pub fn app_token_wire(tok: &str) -> Option<(u16, Option<Vec<u8>>)> {
         "palgs" => Some((wire::A_PASSWORD_ALGORITHMS, Some(vec![0, 1, 0, 0]))),
         "mi" => Some((wire::A_MI, None)),
         "mi256" => Some((wire::A_MI256, None)),
-        "fp" => Some((wire::A_FINGERPRINT, None)),
+        "fp" | "fpd" => Some((wire::A_FINGERPRINT, None)),
+        "mid" => Some((wire::A_MI, None)),
+        "mi256d" => Some((wire::A_MI256, None)),
         _ => None,
     }
 }
@@ -445,7 +452,7 @@ fn gen_app_attrs(p: &Profile, rng: &mut Rng) -> String {
         let collide = rng.chance(p.p_app_collide, 1000);
         if collide {
             toks.push(
-                rng.pick(&["user", "realm", "nonce", "uhash", "palg", "palgs", "mi", "mi256", "fp"])
+                rng.pick(&["user", "realm", "nonce", "uhash", "palg", "palgs", "mi", "mi256", "fp", "fpd", "mid", "mi256d"])
                     .to_string(),
             );
         } else {
@@ -659,7 +666,7 @@ fn gen_corruption(rng: &mut Rng, len: usize, splice: bool) -> String {
             if rng.chance(1, 2) {
                 format!("corrupt=nested d={}", *rng.pick(&[-1i64, 1, 3, 4, 9, 65000]))
             } else {
-                format!("corrupt=nested-set idx={} k={} v={}", rng.below(2), rng.below(3), rng.below(12))
+                format!("corrupt=nested-set idx={} k={} v={}", rng.below(2), rng.below(3), if rng.chance(1, 4) { 0xFFF0 + rng.below(16) } else { rng.below(12) })
             }
         }
         _ => format!("corrupt=utf8 idx={} pos={} val={}", rng.below(4), *rng.pick(&[0u64, 1, 5, 9, 10, 11, 12, 13, 19, 1000]), if rng.chance(1, 2) { rng.below(6) } else { 6 + rng.below(256) }),
@@ -1364,7 +1371,7 @@ impl<'a> World<'a> {
                         0 | 1 => parts.push("lt=438".to_string()),
                         2 => parts.push("lt=401".to_string()),
                         3 => parts.push("lt=accept".to_string()),
-                        4 => parts.push(format!("lt=401 algs={}", *rng.pick(&["none", "md5", "sha", "md5sha", "shamd5", "unsup", "unsupsha", "empty", "md5p1", "shap2", "p3sha", "md5p5sha"]))),
+                        4 => parts.push(format!("lt=401 algs={}", *rng.pick(&["none", "md5", "sha", "md5sha", "shamd5", "unsup", "unsupsha", "empty", "md5p1", "shap2", "p3sha", "md5p5sha", "p2md5sha"]))),
                         5 => {
                             if rng.chance(1, 2) {
                                 parts.push(format!("lt=401 anon={} nonce={}", rng.below(2), *rng.pick(&["plain", "cookie"])))
